@@ -90,6 +90,9 @@ def structured(draw, max_perturb=3):
             toks[i], toks[i + 1] = toks[i + 1], toks[i]
         else:
             toks.insert(i, draw(st.sampled_from([x for p in PAIRS for x in p])))
+    if draw(st.integers(0, 3)) == 0:
+        # a comment as the very last token of the statement (it is not wrapped into a Comment group then)
+        toks.append(draw(st.sampled_from(['-- done', '/* done */', '--', '/*+ h */', '# c'])))
     return toks
 
 
